@@ -19,8 +19,18 @@ COMMON_ASSUMPTIONS = [
     "pika compiled by clang-14 -O2 with atomics-only TSan instrumentation (no source change; guard macro PIKA_VERIF_SIM is defined but tested nowhere)",
 ]
 
+LEVEL_TEXT = ("Seeded exploration: thousands (quick) to hundreds of thousands (thorough) of simulated executions of the real pika code, each "
+              "with its own drawn configuration, generated program, schedule and faults; violations are replayable from a seed and minimised.")
+
+NOT_APPLICABLE = {
+    "C15": "worker->PU binding is a pure function of (topology, process mask, binding mode, thread count), computed once single-threaded at "
+           "start-up: no schedule, clock or fault can change it, so there is nothing for a simulator to decide (input enumeration would be needed)",
+    "C16": "configuration precedence is a pure function of (argv, environment, ini entries); no schedule, time or fault dependence",
+    "C18": "type-erasure wrappers: sequential value-semantics equivalence over (program, input); no concurrency, clock or I/O of their own",
+}
+
 PROPS = {
-    "S00": {"quick_runs": 2000, "thorough_runs": 20000, "seed": 100001},
+    "S00": {"quick_runs": 2000, "thorough_runs": 20000, "seed": 100001, "claimed": False},
     "C02": {
         "quick_runs": 8000, "thorough_runs": 500000, "seed": 2000001,
         "rule": "C02 programs: 1-8 independent waiter/waker pairs over raw agent suspend/resume, condition_variable, semaphore, "
